@@ -6,11 +6,14 @@ OBLIGATIONS: C16K.no_shared_containers
 The renderer and evaluator models thread no state between executions: an execution is a function of the loaded templates
 and its data (C16), and concurrent executions share only read-only trees and the lock-protected idempotent caches of
 `Tag` (C15: `Facts.tagHasSyncField`). That rests on the code having no process-wide or manager-wide mutable containers.
-`Facts.sharedContainers` lists every package-level `sync.Pool` / `sync.Map` / map variable and every struct field of
-type `sync.Pool` / `sync.Map` in the root package, `html/` and `exp/`: there is none. (A correct cache added later makes
+`Facts.sharedContainers` lists every package-level variable that is a container, buffer, lock, atomic or pointer to a
+composite value, and every struct field of type `sync.Pool` / `sync.Map`, in the root package, `html/` and `exp/`: the
+read-only `htmlContentType` is the only one. (A correct cache added later makes
 this obligation fail although the property may still hold: the check then says so, `no-failing-input-found`.) -/
 namespace C16K
 
-theorem no_shared_containers : Facts.sharedContainers = [] := by decide
+/-- the only package-level value of a container / buffer / lock / atomic / pointer kind is the constant content-type
+    header value of `render.go` (a slice that is only read) -/
+theorem no_shared_containers : Facts.sharedContainers = ["render.go: var htmlContentType slice"] := by decide
 
 end C16K
